@@ -89,12 +89,12 @@ fn make_context(kind: &str, action: &'static str) -> Context {
         ctx.set_variable("h", num(5));
     }
     // global handlers reach the evaluating context through this slot
-    *CURRENT.lock().unwrap_or_else(|e| e.into_inner()) = Some(Context { 0: ctx.0.clone() });
+    *CURRENT.lock().unwrap_or_else(|e| e.into_inner()) = Some(crate::engine::share(&ctx));
     if kind.starts_with("context-function") {
         let handle = ctx.0.clone();
         let k = kind.to_string();
         let h: H = Arc::new(move |_| {
-            act(&k, action, Some(Context { 0: handle.clone() }));
+            act(&k, action, Some({ let mut c = Context::new(); c.0 = handle.clone(); c }));
             Ok(num(42))
         });
         ctx.set_func("h", h);
@@ -105,7 +105,7 @@ fn make_context(kind: &str, action: &'static str) -> Context {
 fn register_global(kind: &str, action: &'static str) {
     let k = kind.to_string();
     let body = move || {
-        let own = CURRENT.lock().unwrap_or_else(|e| e.into_inner()).as_ref().map(|c| Context { 0: c.0.clone() });
+        let own = CURRENT.lock().unwrap_or_else(|e| e.into_inner()).as_ref().map(crate::engine::share);
         act(&k, action, own);
         Ok(num(42))
     };
